@@ -79,24 +79,45 @@ Qed.
 Lemma round_range s1 s2 w1 w2 : 0 <= fst (round (s1, s2) w1 w2) < W64 /\ 0 <= snd (round (s1, s2) w1 w2) < W64.
 Proof. unfold round. cbv zeta. cbn [fst snd]. split; apply add64_range. Qed.
 
-Lemma c_rounds_congr : forall n ws h1 h2 s1 s2, length ws = n ->
+Lemma c_rounds_cons2 w1 w2 ws h : c_rounds (w1 :: w2 :: ws) h = c_rounds ws (c_round h (sext64 w1) (sext64 w2)).
+Proof. reflexivity. Qed.
+Lemma rounds_cons2 w1 w2 ws h : rounds (w1 :: w2 :: ws) h = rounds ws (round h w1 w2).
+Proof. reflexivity. Qed.
+
+(* keep the round functions folded: unifying `fst (c_round ...)` with a variable must not unfold them *)
+Local Opaque c_round round.
+
+Lemma c_rounds_congr_n : forall (n : nat) ws h1 h2 s1 s2, (length ws <= n)%nat ->
   eqm64 h1 s1 -> eqm64 h2 s2 -> 0 <= s1 < W64 -> 0 <= s2 < W64 ->
   eqm64 (fst (c_rounds ws (h1, h2))) (fst (rounds ws (s1, s2))) /\
   eqm64 (snd (c_rounds ws (h1, h2))) (snd (rounds ws (s1, s2))) /\
   0 <= fst (rounds ws (s1, s2)) < W64 /\ 0 <= snd (rounds ws (s1, s2)) < W64.
 Proof.
-  induction n as [n IH] using (well_founded_induction lt_wf).
-  intros ws h1 h2 s1 s2 Hn E1 E2 R1 R2.
-  destruct ws as [|w1 [|w2 ws']].
-  { cbn [c_rounds rounds fst snd]. repeat split; try assumption; unfold W64 in *; lia. }
-  { cbn [c_rounds rounds fst snd]. repeat split; try assumption; unfold W64 in *; lia. }
-  cbn [c_rounds rounds].
-  destruct (c_round_congr h1 h2 (sext64 w1) (sext64 w2) s1 s2 w1 w2 E1 E2 (sext64_eqm w1) (sext64_eqm w2) R1 R2) as [A B].
-  destruct (round_range s1 s2 w1 w2) as [RA RB].
-  rewrite (surjective_pairing (c_round (h1, h2) (sext64 w1) (sext64 w2))).
-  rewrite (surjective_pairing (round (s1, s2) w1 w2)).
-  apply (IH (length ws')); [cbn in Hn; lia|reflexivity|assumption|assumption|assumption|assumption].
+  induction n as [|n IH]; intros ws h1 h2 s1 s2 Hn E1 E2 R1 R2.
+  - destruct ws as [|w1 ws1]; [|cbn [length] in Hn; exfalso; exact (Nat.nle_succ_0 _ Hn)].
+    cbn [c_rounds rounds fst snd]. split; [exact E1|]. split; [exact E2|]. split; [exact R1|exact R2].
+  - destruct ws as [|w1 ws1].
+    { cbn [c_rounds rounds fst snd]. split; [exact E1|]. split; [exact E2|]. split; [exact R1|exact R2]. }
+    destruct ws1 as [|w2 ws'].
+    { cbn [c_rounds rounds fst snd]. split; [exact E1|]. split; [exact E2|]. split; [exact R1|exact R2]. }
+    rewrite c_rounds_cons2, rounds_cons2.
+    pose proof (c_round_congr h1 h2 (sext64 w1) (sext64 w2) s1 s2 w1 w2 E1 E2 (sext64_eqm w1) (sext64_eqm w2) R1 R2) as AB.
+    pose proof (round_range s1 s2 w1 w2) as RAB.
+    rewrite (surjective_pairing (c_round (h1, h2) (sext64 w1) (sext64 w2))).
+    rewrite (surjective_pairing (round (s1, s2) w1 w2)).
+    assert (Hl : (length ws' <= n)%nat).
+    { cbn [length] in Hn. apply le_S_n in Hn. apply Nat.le_trans with (S (length ws')); [apply Nat.le_succ_diag_r|exact Hn]. }
+    exact (IH ws' _ _ _ _ Hl (proj1 AB) (proj2 AB) (proj1 RAB) (proj2 RAB)).
 Qed.
+
+Lemma c_rounds_congr ws h1 h2 s1 s2 :
+  eqm64 h1 s1 -> eqm64 h2 s2 -> 0 <= s1 < W64 -> 0 <= s2 < W64 ->
+  eqm64 (fst (c_rounds ws (h1, h2))) (fst (rounds ws (s1, s2))) /\
+  eqm64 (snd (c_rounds ws (h1, h2))) (snd (rounds ws (s1, s2))) /\
+  0 <= fst (rounds ws (s1, s2)) < W64 /\ 0 <= snd (rounds ws (s1, s2)) < W64.
+Proof. apply (c_rounds_congr_n (length ws)). apply le_n. Qed.
+
+Local Transparent c_round round.
 
 Lemma down_c_down n : c_down n = down n.
 Proof. induction n as [|n IH]; [reflexivity|]. cbn. rewrite IH. reflexivity. Qed.
@@ -132,7 +153,7 @@ Proof.
   unfold murmur3_c, murmur3_long, murmur3_h1. cbv zeta.
   set (nb := (length key / 16)%nat). set (ws := words (2 * nb) key). set (T := skipn (16 * nb) key). set (tl := length T).
   assert (R0 : 0 <= 0 < W64) by (unfold W64; lia).
-  destruct (c_rounds_congr (length ws) ws 0 0 0 0 eq_refl (eqm64_refl 0) (eqm64_refl 0) R0 R0) as (E1 & E2 & G1 & G2).
+  destruct (c_rounds_congr ws 0 0 0 0 (eqm64_refl 0) (eqm64_refl 0) R0 R0) as (E1 & E2 & G1 & G2).
   destruct (c_rounds ws (0, 0)) as [h1 h2]. destruct (rounds ws (0, 0)) as [a b]. cbn [fst snd] in *.
   rewrite !down_c_down.
   set (h2' := if (8 <? tl)%nat then c_xor h2 _ else h2).
